@@ -39,5 +39,26 @@ CHECKS["C17"] = dict(
                  "diagonal of readLinearG is not part of the documented matrix (never written by the library)"],
 )
 
+CHECKS["C16"] = dict(
+    stages=[stage("C16", quick=dict(cases=400000, size=100, shards=12),
+                  thorough=dict(cases=24000000, size=100, shards=16))],
+    technique="exhaustive enumeration of small lattices + rapidcheck random tuples, against exact 128-bit integer/rational reference predicates",
+    level_text="Exhaustive over every point triple on the 6x6 lattice, every quadruple on the 5x5 (thorough: 6x6) lattice and every "
+               "triangle / simple quadrilateral on 5x5 x every query point; random tuples (collinear, touching, parallel, "
+               "shared-endpoint and zero-length configurations forced by construction) with integer and half-integer "
+               "coordinates up to 2^20.  Every predicate and its swap/reverse symmetries are compared with an exact "
+               "rational reference; exhaustive on the stated lattices, sampled beyond them.",
+    level_note="Reference semantics are those the code and its callers implement (pointOnLine = open segment, segmentIntersect = "
+               "proper crossing, segmentIntersectPoint = closed segments; see DESIGN.md C16); inPoly is judged on strictly convex "
+               "polygons of the library's orientation, inPolyGen on simple polygons; the intersection point is compared to 1e-12 "
+               "(lattice) / 2e-3 absolute at 2^20 (1e-9 relative).",
+    rule="exhaustive lattices (every tuple is distinct by construction; non-trivial = degenerate: some three of the points "
+         "collinear or repeated, or the query point on the polygon border) plus rapidcheck random tuples with forced "
+         "degeneracies (non-trivial by the same rule; distinct by FNV-1a of the case text)",
+    exhaustive=True,
+    min_nontrivial=dict(quick=100000, thorough=1000000),
+    assumptions=["coordinates are integers or half-integers below 2^21 in magnitude, so every product in the predicates is exact in double"],
+)
+
 for _k in CHECKS:
     NOT_APPLICABLE.pop(_k, None)
